@@ -1601,12 +1601,34 @@ fn c16(t: &[&str], out: &str) -> R {
         }
         v
     };
-    for a in assigns {
+    // the value the object itself returns (the real `value` method), next to the definition
+    let own = |a: usize| -> Option<bool> {
+        let line = match t[0] {
+            "cube" | "ecube" => format!("{} value {} {:x}", t[0], t[2], a),
+            _ => format!("{} value {} {} {:x}", t[0], t[2], t[3], a),
+        };
+        let r = run_line(&line);
+        match r.as_str() {
+            "ok 1" => Some(true),
+            "ok 0" => Some(false),
+            _ => None,
+        }
+    };
+    for (k, a) in assigns.into_iter().enumerate() {
         match eval_formula(&text, a) {
             None => return Err(format!("printed text {:?} is not a formula of the grammar", text)),
             Some(b) => {
                 if b != val(a) {
-                    return Err(format!("printed text {:?} evaluates to {} at assignment {:#x} but the object returns {}", text, b, a, val(a)));
+                    return Err(format!("printed text {:?} evaluates to {} at assignment {:#x} but the object denotes {}", text, b, a, val(a)));
+                }
+                // every assignment for few variables, the first 24 sampled ones otherwise
+                if nvars <= 6 || k < 24 {
+                    match own(a) {
+                        Some(o) if o != b => {
+                            return Err(format!("printed text {:?} evaluates to {} at assignment {:#x} but the object's own value() returns {}", text, b, a, o));
+                        }
+                        _ => {}
+                    }
                 }
             }
         }
@@ -1692,6 +1714,9 @@ pub fn check(prop: &str, line: &str) -> R {
     let out = run_line(line);
     if out == "bad-op" {
         return Err("harness could not run this line (bad-op)".to_string());
+    }
+    if out == "ok receiver-modified" {
+        return Err("a copying method (`swap_adjacent(&mut self) -> Self`) modified its receiver".to_string());
     }
     if out == "ok forms-disagree" {
         // the runner evaluates every syntactic form of an operator (owned / borrowed operands,
